@@ -83,6 +83,7 @@ static void exercise(const char *name) {
   unsigned spf = gd_spf(D, name); note("spf");
   off64_t eof = gd_eof64(D, name); note("eof");
   off64_t bof = gd_bof64(D, name); note("bof");
+  unsigned real_spf = spf;
   if (spf > 4096) spf = 4096;
   size_t cap = (size_t)spf * 2 + 16;
   unsigned char *buf = malloc(cap * 16);
@@ -98,7 +99,8 @@ static void exercise(const char *name) {
       size_t n = gd_getdata64(D, name, 0, starts[k], 0, (k == 1) ? 0 : 5, RT[r], buf); note("getdata");
       if (n > 5) snprintf(bad, sizeof bad, "getdata returned %zu > 5 requested:%s", n, name);
     }
-    if (r < 2) { size_t n = gd_getdata64(D, name, 0, 0, 2, 3, RT[r], buf); note("getdata_frames"); if (n > cap) snprintf(bad, sizeof bad, "getdata overrun:%s", name); }
+    /* whole frames only when two of them fit the buffer */
+    if (r < 2 && real_spf <= 4096) { size_t n = gd_getdata64(D, name, 0, 0, 2, 3, RT[r], buf); note("getdata_frames"); if (n > cap) snprintf(bad, sizeof bad, "getdata overrun:%s", name); }
   }
   gd_seek64(D, name, 0, 3, GD_SEEK_SET); note("seek");
   gd_tell64(D, name); note("tell");
